@@ -546,8 +546,9 @@ Fixpoint continue_until_wait (fuel : nat) (a : assets) (x : st) (l : lstate) : r
                         | Some f => match f_nodes f with n :: _ => Some (n_id n) | [] => None end
                         | None => None
                         end in
+            (* `step = nil`: the new run has not visited any node yet *)
             (x, {| l_cur := Some idx; l_node := l_node l; l_exit := l_exit l; l_operand := l_operand l;
-                   l_step := l_step l; l_steps := l_steps l; l_trigger := l_trigger l |}, dest)
+                   l_step := None; l_steps := l_steps l; l_trigger := l_trigger l |}, dest)
         | None =>
             match l_exit l with
             | Some e =>
@@ -593,8 +594,13 @@ Fixpoint continue_until_wait (fuel : nat) (a : assets) (x : st) (l : lstate) : r
               match parent, parent_active with
               | Some pi, true =>
                   let child_failed := match run_status (session_ x) ci with Some RFailed => true | _ => false end in
+                  (* `step, _, _ = currentRun.PathLocation()` *)
+                  let psr := match path_location a (session_ x) pi with
+                             | Some (pos, _) => Some (pi, pos)
+                             | None => None
+                             end in
                   let l := {| l_cur := Some pi; l_node := l_node l; l_exit := l_exit l; l_operand := l_operand l;
-                              l_step := l_step l; l_steps := l_steps l; l_trigger := l_trigger l |} in
+                              l_step := psr; l_steps := l_steps l; l_trigger := l_trigger l |} in
                   if negb child_failed then
                     let flow_missing := match get_run (session_ x) pi with
                                         | Some r => match get_flow a (r_flow r) with None => true | Some _ => false end
@@ -616,12 +622,7 @@ Fixpoint continue_until_wait (fuel : nat) (a : assets) (x : st) (l : lstate) : r
                       | FrePanic => RPanic
                       end
                   else
-                    (* `step, _, _ := currentRun.PathLocation()` shadows the outer step *)
-                    let sr := match path_location a (session_ x) pi with
-                              | Some (pos, _) => Some (pi, pos)
-                              | None => None
-                              end in
-                    continue_until_wait fuel' a (fail_run x pi sr FChildFailed) l
+                    continue_until_wait fuel' a (fail_run x pi psr FChildFailed) l
               | _, _ =>
                   let failed := match run_status (session_ x) ci with Some RFailed => true | _ => false end in
                   ROk (with_session x (fun s => set_status s (if failed then SFailed else SCompleted)))
